@@ -53,5 +53,6 @@ MANIFEST = dict(
                 "read_command / get_value / get_unsat_assumptions run on every generated case and are compared with the extracted model (trees and "
                 "Ok/Err/Panic/Hang classes) and judged by the extracted reference front end."),
     level_note=("Trusted: Coq kernel; Spec/Smt.v; hand-written model tied by differential execution. The reader violates the property on malformed input (panics, "
-                "a hang) and on several writer outputs: recorded as known findings."),
+                "a hang) and on several writer outputs: recorded as known findings. The model has a repaired variant (Fix = /repo with patches/0003..0015, "
+                "see patches/SMT-README.txt) with the full-strength theorems; ocaml/driver/c05.ml code_variant says which variant the checked code is."),
 )
